@@ -30,7 +30,8 @@ def _norm_raw(raw):
 def _env(extra):
     env = {k: v for k, v in os.environ.items() if not k.startswith("STEPUP_")}
     env["PATH"] = BIN + ":/venv/bin:" + env.get("PATH", "/usr/bin:/bin")
-    env.pop("PYTHONPATH", None)
+    if not os.environ.get("VERIF_KEEP_PYTHONPATH"):
+        env.pop("PYTHONPATH", None)
     env["PYTHONDONTWRITEBYTECODE"] = "1"
     env.update(extra or {})
     return env
